@@ -356,7 +356,7 @@ theorem parseRH_render (v : V) (hw : v.wf = true) :
 theorem redhat_spec (a b : V) (ha : a.wf = true) (hb : b.wf = true) :
     compareStr .redhat (render a) (render b) = .ofOrd (RpmSpec.specCmp a b) := by
   show redhatFam.compareStr (render a) (render b) = _
-  simp only [Family.compareStr, Family.cmpParsed, redhatFam, CRes.toOutcome, parseRH_render a ha, parseRH_render b hb]
+  simp only [Family.compareStr, Family.cmpParsed, redhatFam_parse, redhatFam_cmp, CRes.toOutcome, parseRH_render a ha, parseRH_render b hb]
   congr 1
   have split : ∀ v : V, v.wf = true → (∀ t ∈ v.version, t.wf = true) ∧ v.version ≠ [] := by
     intro v hv
